@@ -108,6 +108,18 @@ def build_env(spec):
     return env
 
 
+LATE = b'X-Late: added after the envelope was first flattened\r\n'
+
+
+def late_header(spec, env, before):
+    """The envelope has been flattened once (a queue policy, an earlier attempt); then a header is added through the Message
+    API, as the header policies and the spam filter do. What is relayed is the envelope as it is at the time of the attempt."""
+    if not spec.get('late') or not before[0].endswith(b'\r\n\r\n'):
+        return before
+    env.headers['X-Late'] = 'added after the envelope was first flattened'
+    return (before[0][:-2] + LATE + b'\r\n', before[1])
+
+
 def expected_content(env_before):
     hdr, body = env_before
     data = hdr + body
@@ -187,7 +199,7 @@ def run_smtp_case(case):
         captured = 0
         for idx, spec in enumerate(case['envelopes']):
             env = build_env(spec)
-            before = env.flatten()
+            before = late_header(spec, env, env.flatten())
             rcpts = list(env.recipients)
             res, exc = None, None
             try:
@@ -287,7 +299,7 @@ def run_http_case(case):
     try:
         for idx, spec in enumerate(case['envelopes']):
             env = build_env(spec)
-            before = env.flatten()
+            before = late_header(spec, env, env.flatten())
             rcpts = list(env.recipients)
             try:
                 with gevent.Timeout(15):
@@ -338,7 +350,7 @@ def run_lmtp_case(case):
     try:
         for idx, spec in enumerate(case['envelopes'][:1]):
             env = build_env(spec)
-            before = env.flatten()
+            before = late_header(spec, env, env.flatten())
             rcpts = list(env.recipients)
             try:
                 res, exc = result_of(lambda: relay.attempt(env, 0))
@@ -436,7 +448,8 @@ def envelope_spec(draw, utf8, eightbit_ok):
     if not eightbit_ok and draw(st.integers(0, 4)):
         body = bytes(c for c in body if c < 128)
         block = bytes(c if c < 128 else 63 for c in block)
-    return {'sender': sender, 'rcpts': rcpts, 'block': block.hex(), 'body': body.hex()}
+    return {'sender': sender, 'rcpts': rcpts, 'block': block.hex(), 'body': body.hex(),
+            'late': draw(st.sampled_from([False, False, False, True]))}
 
 
 @st.composite
